@@ -436,10 +436,21 @@ func VerifHarness_C13_handlers() {
 	case 3:
 		def.HandlerOn.Exit = &stepDef{}
 	}
+	if def.HandlerOn.Exit != nil {
+		switch vfChoice("h.exit.pre", 3) {
+		case 1:
+			def.HandlerOn.Exit.Preconditions = []*conditionDef{nil}
+		case 2:
+			def.HandlerOn.Exit.Preconditions = []*conditionDef{{Condition: vfS("h.pre.cond"), Expected: vfS("h.pre.exp")}}
+		}
+	}
 	if vfChoice("h.more", 2) == 1 {
 		def.HandlerOn.Failure = &stepDef{Command: vfScalar("h.fail.cmd", false)}
 		def.HandlerOn.Success = &stepDef{Command: "true"}
 		def.HandlerOn.Cancel = &stepDef{Run: vfS("h.cancel.run")}
+		if vfChoice("h.cancel.pre", 2) == 1 {
+			def.HandlerOn.Cancel.Preconditions = []*conditionDef{nil}
+		}
 	}
 	switch vfChoice("d.pre", 3) {
 	case 1:
